@@ -213,6 +213,10 @@ def same_rendering(h, src_text, out_text, label, tolerance=None, skia_calls=None
         Cs, As = sc.comp(src)
         Co, Ao = sc.comp(out)
         cons = [z3.And(c >= 0, c <= 1) for c in sc.colors.values()]
+        # results the abstract Skia returned as EMPTY on this path (explorer-forked when the harness
+        # sets skia_may_return_empty): the path is only about inputs for which that region is empty
+        for nt in FP._registry().get("empty_results", []):
+            cons.append(z3.Not(regions.formula(nt, sc.atoms)))
         goal = z3.Implies(z3.And(*cons) if cons else z3.BoolVal(True), z3.And(Cs == Co, As == Ao))
         # prefer a witness in which numbers that failed to be identified really differ
         # (gap >= 1/100): the coverage atoms alone do not force the numbers apart
